@@ -228,6 +228,52 @@ def explore_c08(ctx, res, replay_ops=None):
             if o != "holds":
                 res.violation("oracle", "C08 exchange predicate (Rating.holds) fails on the implementation's trace: " + o,
                               _history(r.ops, i) + ["# judged: " + q])
+    # --- the CHF side: the unit cost the CHF decodes from the same stored tariff (its getUnitCost) must be the one the
+    #     rating server applies; histories through the real router with stored tariffs of every shape
+    if replay_ops is None or any(o.startswith("chf ") for o in (replay_ops or [])):
+        r2 = ctx.stream("chf", n_for(ctx, 250, 2500), ops=replay_ops, extra_gen=["-mode", "costs"])
+
+        def costs_of(line):
+            out = {}
+            for m in re.finditer(r"([0-9a-f]+) money=(\S+)", line):
+                if m.group(2) == "-":
+                    continue
+                for it in m.group(2).split(";"):
+                    rg, rest = it.split("=", 1)
+                    f = rest.split("/")
+                    if len(f) >= 3:
+                        out[(m.group(1), rg)] = f[2]
+            return out
+        tariffs = {}
+        for i, (op, im, mo) in enumerate(zip(r2.ops, r2.impl, r2.model)):
+            t = op.split()
+            if t[1] == "reset":
+                tariffs = {}
+            if t[1] == "acct":
+                tariffs[(t[2], t[3])] = t[5] if len(t) > 5 else ""
+            if t[1] not in ("create", "update", "release"):
+                continue
+            res.evaluations += 1
+            ci, cm = costs_of(im), costs_of(strip_annot(mo))
+            for k, v in ci.items():
+                res.traces_validated += 1
+                try:
+                    shown = bytes.fromhex(tariffs.get(k, "")).decode(errors="replace")
+                except ValueError:
+                    shown = "?"
+                res.dist["chf-side cost string=%r" % shown[:12]] += 1
+                if k in cm and cm[k] != v:
+                    res.violation("oracle", "C08: the CHF decodes the stored tariff %r of rating group %s to unit cost %s; the rating server applies %s" % (
+                        shown, k[1], v, cm[k]), _chf_history(r2.ops, i) + ["# impl:  " + im[:1500], "# model: " + strip_annot(mo)[:1500]])
+                    break
+            else:
+                if im != strip_annot(mo):
+                    res.disagreements += 1
+                    res.violation("correspondence", "chf (tariff shapes): model and implementation differ",
+                                  _chf_history(r2.ops, i) + ["# impl:  " + im[:3000], "# model: " + strip_annot(mo)[:3000]], found_input=False)
+                    break
+                continue
+            break
     res.rule = ("SURs against the real rating server over Diameter/TLS; stored unit-cost strings: integers incl. 0 "
                 "and > 2^32, decimal fractions, signs, spaces, empty and non-numeric text (thorough: random strings of "
                 "length <= 3 over 0-9.+-a); sub-types reserve/debit/AoC/release/unknown; amounts at boundaries of "
@@ -824,6 +870,25 @@ def explore_c02(ctx, res, replay_ops=None):
         res.dist["tz%s" % ("+" if tz >= 0 else "-") + ("hh" if tz % 3600 == 0 else "hh:mm")] += 1
         if o != want:
             res.violation("oracle", "C02: the BCD timestamp written for %s reads back as %s" % (t[2:], o), [rts.ops[i], "# impl: " + rts.impl[i]])
+    # --- long histories that cross the 65535-octet record limit (records are split): every container of every accepted
+    #     request must still be in the subscriber's records exactly once
+    if replay_ops is None or any(o.startswith("cdrsize ") for o in (replay_ops or [])):
+        rs = ctx.stream("cdrsize", n_for(ctx, 20, 300), ops=replay_ops, with_model=False)
+        start = 0
+        for i, (op, im) in enumerate(zip(rs.ops, rs.impl)):
+            if op.split(" ")[1] == "reset":
+                start = i
+            m = re.search(r" cont=(\d+):(\d+):(\d+) ", im)
+            if not m:
+                continue
+            res.evaluations += 1
+            rec, dis, sent = int(m.group(1)), int(m.group(2)), int(m.group(3))
+            res.dist["split-histories:containers=%s" % ("<100" if sent < 100 else "<2600" if sent < 2600 else ">=2600")] += 1
+            res.traces_validated += 1
+            if not (rec == dis == sent):
+                res.violation("oracle", "C02: the subscriber's records hold %d containers (%d distinct) for %d reported in accepted requests" % (rec, dis, sent),
+                              rs.ops[start:i + 1] + ["# impl: " + im[:160] + "…"])
+                break
     res.rule = ("chf histories (1-2 subscribers, 1-2 concurrent sessions each, interleaved updates, releases; every container "
                 "carries a unique local sequence number as tracer): after every operation the containers found in the records "
                 "of each session (in Records order) must equal the containers reported for that session so far; plus "
@@ -1258,6 +1323,8 @@ def _peer_compare(res, op, im, mo):
                     return "the account-balance answer acted upon differs (impl %s, model %s)" % (af[4], bf[0])
                 if abs(int(af[5]) - int(bf[1])) > PEER_TOL_MS:
                     return "elapsed time differs (impl %s ms, model %s ms)" % (af[5], bf[1])
+                if len(bf) > 3 and bf[3] == "1" and af[1] in ("-", "0"):
+                    return "CROSSTALK: the update was granted %s although its own account-balance and rating answers arrived in time" % af[1]
         elif a.startswith("n="):
             if a != b:
                 return "%s / %s" % (a, b)
@@ -1296,11 +1363,15 @@ def _explore_peer(ctx, res, replay_ops, which):
                     bad = "an update did not complete within 14 s after a late or lost answer (subscriber blocked)"
                 elif f[4] not in ("own", "0"):
                     bad = "an update acted upon the answer to account-balance request %s, not its own" % f[4]
+                elif f[1] == "0" and f[3].lstrip("-").isdigit() and int(f[3]) > 0:
+                    # money was reserved for this update (its own account-balance answer), yet the rating answer it
+                    # acted upon allowed nothing: that is the answer to the unit-cost enquiry (quota 0), not to its own request
+                    bad = "an update that reserved %s was granted 0 units: it acted upon the rating answer to another request" % f[3]
             if which == "C19" and tok.startswith("n=") and tok.endswith(":0"):
                 bad = "an update did not complete"
             if which == "C18" and tok.startswith("c="):
                 f = tok[2:].split(":")
-                if int(f[0]) > 4 or f[1] != "0":
+                if int(f[0]) > 0 or f[1] != "0":
                     bad = "connections / background tasks left behind after completed requests: %s established, goroutine bucket %s" % (f[0], f[1])
             if which == "C18" and tok.startswith("n=") and tok.endswith(":0"):
                 bad = "an update did not complete"
@@ -1310,7 +1381,9 @@ def _explore_peer(ctx, res, replay_ops, which):
             res.nontrivial.add(op)
         # --- correspondence with the client machines
         diff = _peer_compare(res, op, im, mo)
-        if diff:
+        if diff and diff.startswith("CROSSTALK") and which == "C19":
+            res.violation("oracle", "C19: " + diff[11:] + " (it acted on some other request's rating answer)", [op, "# impl:  " + im, "# model: " + mo])
+        elif diff:
             res.disagreements += 1
             res.violation("correspondence", "peer: model and implementation differ: " + diff, [op, "# impl:  " + im, "# model: " + mo],
                           found_input=bool(bad))
